@@ -7,7 +7,10 @@
    code before them is frozen in Model/SyncerOld.v.
    Both ingress paths (DA scanning block/retriever.go, P2P store polling block/store.go) only append
    events to headerInCh/dataInCh; SyncLoop consumes one event at a time, so a history is a list of
-   events, clean restarts and crashes.  Definitions only; proofs are in Proofs/SyncerProofs.v. *)
+   events, clean restarts and crashes.  Second part (end of the file): the same node with the signature
+   payload provider of block.ManagerOptions as a parameter of the validation, and with a store.Height() call
+   of an event's handling that fails (transient read fault); the first part is its instance "default provider,
+   no fault".  Definitions only; proofs are in Proofs/SyncerProofs.v. *)
 From Coq Require Import String NArith ZArith List Bool.
 From Verif Require Import Base.KV Base.Keys Model.Types.
 Import ListNotations.
